@@ -90,6 +90,8 @@ Keys(f) == {<<f.snaps[i].c, f.snaps[i].n, f.snaps[i].lab>> : i \in 1..Len(f.snap
 PairsOf(f) == {Pair(f.snaps[i]) : i \in 1..Len(f.snaps)}
 PlainPairs(f) == {Pair(f.snaps[i]) : i \in {j \in 1..Len(f.snaps) : f.snaps[j].lab = ""}}
 
+AliveSeqOf(lv) == SetToSortSeq({o \in Obj : lv[o]}, <)
+
 (* ---------- queries ---------- *)
 Steps(f) == [i \in 1..Len(f.snaps) |-> Pair(f.snaps[i])]                           \* list(genTimeSteps())
 Names(f) == [i \in 1..Len(f.snaps) |-> <<f.snaps[i].c, f.snaps[i].n, f.snaps[i].lab>>]   \* keys()
@@ -121,6 +123,28 @@ HistLoc(f, o, p) ==
                       LET at == {x \in Obj : s.st.live[x] /\ s.st.loc[x] = loc[o]} IN
                       IF at = {} THEN h ELSE Put(h, s.c, s.n, Stored(s, CHOOSE x \in at : TRUE, p)),
                     <<>>, f.snaps))
+
+\* HistoryTrackerInterface.getBlockHistoryVal(block name, param, ts)  (armi/bookkeeping/historyTracker.py): the live value when ts
+\* is the current step and the file has nothing under it, else the value stored in the unlabelled snapshot of ts.  Asked for
+\* the steps that have an unlabelled snapshot containing the object, and for the current step when it is not listed at all.
+TrackSteps(f, o) ==
+    {pr \in PlainPairs(f) : Find(f.snaps, pr[1], pr[2], "").st.live[o]} \cup (IF now \in PairsOf(f) THEN {} ELSE {now})
+BlockHistVal(f, o, p, ts) ==
+    IF ts = now /\ now \notin PairsOf(f) THEN par[o][p] ELSE Stored(Find(f.snaps, ts[1], ts[2], ""), o, p)
+TrackView(f) ==
+    [k \in 1..Len(AliveSeqOf(live)) |->
+        LET o == AliveSeqOf(live)[k]
+            ts == SetToSortSeq(TrackSteps(f, o), LAMBDA x, y : PairLess(x, y)) IN
+        [o |-> o, h |-> [p \in Par |-> [i \in 1..Len(ts) |-> <<ts[i][1], ts[i][2], BlockHistVal(f, o, p, ts[i])>>]]]]
+\* HistoryTrackerInterface.getTimeSteps(): "times in years that are available in the history" = the values of
+\* DatabaseInterface.getHistory(r, ["time"]): one per listed (c, n) in listing order (the last-named snapshot of a pair wins),
+\* the current step last unless it is listed (then the live time replaces the stored one).  The reactor's time is an
+\* injective function of the (cycle, node) it was written at (the adapter's choice of data), reported here as that pair.
+TimeOf(s) == <<s.c + s.off, s.n>>
+TimeSteps(f) ==
+    LET h == FoldLeft(LAMBDA acc, s : Put(acc, s.c, s.n, TimeOf(s)), <<>>, f.snaps)
+        hl == Put(h, now[1], now[2], now) IN
+    [i \in 1..Len(hl) |-> hl[i][3]]
 
 \* Database.load(c, n, statePointName=l): the reactor as stored; its time state is what the file says
 Loaded(s) == [kind |-> "load", cyc |-> s.c, nod |-> s.n, st |-> s.st]
@@ -216,7 +240,7 @@ Next == Mutate \/ DbStep
 NextL == Next \/ LoadStep
 
 (* ---------- observation (what the adapter projects from the real objects after every step) ---------- *)
-AliveSeq == SetToSortSeq(Alive, <)
+AliveSeq == AliveSeqOf(live)
 ObjView(st, o) == [o |-> o, loc |-> st.loc[o], par |-> st.par[o]]
 StateView(st) == LET al == SetToSortSeq({o \in Obj : st.live[o]}, <) IN [k \in 1..Len(al) |-> ObjView(st, al[k])]
 \* histories of the objects in the reactor: one row per object, one column per parameter p0..NPar (0 = "location")
@@ -229,6 +253,9 @@ Obs == [reactor |-> StateView(Cur), now |-> now,
         astate |-> A.st, bstate |-> B.st,
         steps |-> IF Writable THEN Steps(A) ELSE <<>>,
         names |-> IF Writable THEN Names(A) ELSE <<>>,
+        has   |-> IF Writable THEN [i \in 1..Len(A.snaps) |-> TRUE] ELSE <<>>,   \* hasTimeStep(c, n, label) of every listed name
+        hbv   |-> IF Writable THEN TrackView(A) ELSE <<>>,                       \* HistoryTrackerInterface.getBlockHistoryVal
+        hts   |-> IF Writable THEN TimeSteps(A) ELSE <<>>,                       \* HistoryTrackerInterface.getTimeSteps
         hist  |-> IF Writable THEN HistView(A, Hist, 1) ELSE <<>>,        \* getHistories(blocks, params)
         hpos  |-> IF Writable THEN [k \in 1..Len(AliveSeq) |-> [o |-> AliveSeq[k], h |-> Hist(A, AliveSeq[k], 0)]] ELSE <<>>,
                                                                            \* getHistories(assemblies, ["location"])
